@@ -32,16 +32,16 @@ TLockQueue == Ev("lock.queue") /\ LockSteps(Me) /\ pc'[Me] = "lockwait" /\ Seen
 TLockGot   == Ev("lock.got") /\ Grant(Me) /\ Seen
 TLockRel   == /\ Ev("lock.rel") /\ holder = Me
               /\ IF Me = AUTH THEN (a_chk /\ ~ready) \/ a_rel
-                 ELSE A_raise(Me) \/ A_rel(Me) \/ B_rel(Me) \/ C_crash(Me) \/ C_rel(Me) \/ D_after(Me) \/ E_chk(Me)
+                 ELSE A_raise(Me) \/ A_rel(Me) \/ B_rel(Me) \/ BC_stale(Me) \/ C_crash(Me) \/ C_rel(Me) \/ D_after(Me) \/ E_chk(Me)
               /\ holder' = NoTask /\ Seen
 TCondWait  == /\ Ev("cond.wait")
-              /\ IF Me = AUTH THEN a_chk ELSE A_chk(Me) \/ D_wait(Me)
+              /\ IF Me = AUTH THEN a_chk ELSE A_chk(Me) \/ D_wait(Me) \/ X_wait(Me)
               /\ Me \in condQ' /\ Seen
 TCondWake  == Ev("cond.wake") /\ Wake(Me) /\ Seen
 TStart     == Ev("start") /\ (IF Me = AUTH THEN AStart ELSE Start(Me)) /\ Seen
 TSel       == Ev("sel") /\ A_sel(Me) /\ ~Empty /\ hkey'[Me] = E.key /\ held'[Me] = E.item /\ Seen
 TSelFail   == Ev("sel.fail") /\ A_sel(Me) /\ Empty /\ Seen
-TCtxNew    == Ev("ctx.new") /\ C_set(Me) /\ nctx' = nctx + 1 /\ val[held[Me]] = E.val /\ Seen
+TCtxNew    == Ev("ctx.new") /\ (C_set(Me) \/ BC_set(Me)) /\ nctx' = nctx + 1 /\ val[held[Me]] = E.val /\ Seen
 TSend      == Ev("send") /\ Send(Me) /\ pc'[Me] = "inflight" /\ val[held[Me]] = E.val /\ Seen
 TSendClosed == Ev("send.closed") /\ Send(Me) /\ pc'[Me] = "D_acq" /\ Seen
 TRetry     == Ev("retry") /\ Retry(Me) /\ Seen
@@ -50,9 +50,13 @@ TResp      == /\ Ev("resp")
                  \/ E.code = 401 /\ Resp401(Me)
                  \/ E.code = 503 /\ RespFault(Me)
               /\ Seen
-TFlushB    == Ev("flush.b") /\ D_flush(Me) /\ held[Me] = E.item /\ Seen
-TFlushE    == Ev("flush.e") /\ D_flushed(Me) /\ Seen
-TNotify    == Ev("notify") /\ (IF Me = AUTH THEN a_pop ELSE D_empty(Me) /\ Empty) /\ Seen
+TFlushB    == /\ Ev("flush.b")
+              /\ \/ D_flush(Me) /\ held[Me] = E.item
+                 \/ X_flush(Me) /\ cur[hkey'[Me]] = E.item
+              /\ Seen
+TFlushE    == Ev("flush.e") /\ (D_flushed(Me) \/ X_flushed(Me)) /\ Seen
+TNotify    == Ev("notify") /\ (IF Me = AUTH THEN a_pop ELSE (D_empty(Me) \/ X_end(Me)) /\ Empty) /\ Seen
+TExpire    == Ev("expire") /\ Expire(E.val) /\ Seen
 TLogin     == /\ Ev("login") /\ Me = AUTH
               /\ LET abs == [k \in Keys |-> IF E.res[k] > nval THEN FRESH ELSE E.res[k]] IN
                  Login(abs) /\ \A k \in Keys : lres'[k] = E.res[k]
@@ -66,25 +70,34 @@ TEnd       == /\ Ev("end") /\ UNCHANGED vars
 \* what cannot be seen: the steps of the running task that neither touch the lock nor anything recorded
 Silent(t) == IF t = AUTH THEN FALSE
              ELSE \/ A_chk(t) /\ ready
-                  \/ B_chk(t) /\ cache[held[t]] # "none"
+                  \/ B_chk(t) /\ pc'[t] \in {"C_chk", "send"}
                   \/ B_set(t)
                   \/ C_chk(t) /\ cache[held[t]] = "ctx"
                   \/ C_set(t) /\ cache[held[t]] # "empty"
+                  \/ BC_set(t) /\ (cur[hkey[t]] # held[t] \/ cache[held[t]] = "ctx")
                   \/ D_chk(t) \/ D_del(t)
                   \/ D_empty(t) /\ ~Empty
                   \/ D_wait(t) /\ ready
+                  \/ X_chk(t) \/ X_del(t)
+                  \/ X_end(t) /\ ~Empty
+                  \/ X_wait(t) /\ ready
 TSilent    == run # NoTask /\ Silent(run) /\ UNCHANGED <<tid, l>>
 
 TNext == TLockNow \/ TLockQueue \/ TLockGot \/ TLockRel \/ TCondWait \/ TCondWake \/ TStart \/ TSel \/ TSelFail \/ TCtxNew
-         \/ TSend \/ TSendClosed \/ TRetry \/ TResp \/ TFlushB \/ TFlushE \/ TNotify \/ TLogin \/ TRevoke \/ TEnd \/ TSilent
+         \/ TSend \/ TSendClosed \/ TRetry \/ TResp \/ TFlushB \/ TFlushE \/ TNotify \/ TLogin \/ TRevoke \/ TExpire \/ TEnd \/ TSilent
 TSpec == TInit /\ [][TNext]_tvars
 
 Max2(a, b) == IF a >= b THEN a ELSE b
 Broken == IF ~NoReuse THEN "NoReuse" ELSE IF ~NoCrash THEN "NoCrash" ELSE IF ~SingleReauth THEN "SingleReauth"
-          ELSE IF ~LockDiscipline THEN "LockDiscipline" ELSE IF ~NoLeak THEN "NoLeak" ELSE ""
+          ELSE IF ~LockDiscipline THEN "LockDiscipline" ELSE ""
+\* not clauses of the property, but worth a note when seen: a context made for an item that has left the vault (its session is never
+\* closed), a request that leaves with credentials dropped as expired
+Noted == IF ~NoLeak THEN "NoLeak" ELSE IF ~NoExpiredUse THEN "NoExpiredUse" ELSE ""
 Book == /\ TLCSet(1, [TLCGet(1) EXCEPT ![tid] = Max2(@, l)])
         /\ (Broken = "" \/ TLCSet(2, [TLCGet(2) EXCEPT ![tid] = IF @ = "" THEN Broken ELSE @]))
+        /\ (Noted = "" \/ TLCSet(3, [TLCGet(3) EXCEPT ![tid] = IF @ = "" THEN Noted ELSE @]))
 ASSUME TLCSet(1, [i \in 1..Len(Traces) |-> 0])
 ASSUME TLCSet(2, [i \in 1..Len(Traces) |-> ""])
-Verdicts == \A i \in 1..Len(Traces) : PrintT(<<"VERDICT", i, Traces[i].id, TLCGet(1)[i] - 1, Len(Traces[i].events), TLCGet(2)[i]>>)
+ASSUME TLCSet(3, [i \in 1..Len(Traces) |-> ""])
+Verdicts == \A i \in 1..Len(Traces) : PrintT(<<"VERDICT", i, Traces[i].id, TLCGet(1)[i] - 1, Len(Traces[i].events), TLCGet(2)[i], TLCGet(3)[i]>>)
 =============================================================================
